@@ -24,6 +24,20 @@ func (fr *Frame) call(c *ssa.CallCommon, instr *ssa.Call, st *State, pos token.P
 	}
 	fr.anchoredAsserts(name, c, st, pos)
 	res := fr.call1(c, instr, st, pos)
+	if fr.top && fr.fx.contract != nil {
+		for _, m := range fr.fx.contract.Marks {
+			if globMatch(m.Glob, name) {
+				if fr.fx.markCnt == nil {
+					fr.fx.markCnt = map[string]int{}
+					fr.fx.marks = map[string]*State{}
+				}
+				fr.fx.markCnt[m.Label]++
+				if fr.fx.markCnt[m.Label] == m.N {
+					fr.fx.marks[m.Label] = st.clone()
+				}
+			}
+		}
+	}
 	fr.recordErrProp(name, res, c.Signature(), st, pos)
 	return res
 }
@@ -377,7 +391,7 @@ func (fr *Frame) applyContract(ct *FuncContract, fn *ssa.Function, sig *types.Si
 	var res []Val
 	for i := 0; i < nres; i++ {
 		rt := sig.Results().At(i).Type()
-		if ct.Flags["pure"] && nres == 1 {
+		if ct.Flags["deterministic"] && nres == 1 {
 			r := fx.pureUF(name, args, sigParamTypes(sig, fn, len(args)), rt)
 			fx.wellFormed(st, r, rt)
 			res = append(res, tv(r))
@@ -483,7 +497,14 @@ func (fr *Frame) checkFnRefinement(fs *FuncContract, outer *FuncContract, clo Va
 // applyEffects havocs what the callee may modify.
 func (fr *Frame) applyEffects(ct *FuncContract, fn *ssa.Function, sig *types.Signature, args []Val, env *specEnv, st *State, name string) {
 	fx := fr.fx
-	if ct.Flags["pure"] || ct.Flags["noeffect"] {
+	if ct.Flags["noeffect"] || ct.Flags["deterministic"] {
+		return
+	}
+	if ct.Flags["pure"] {
+		// writes only to objects it allocates itself
+		w := fx.ctx.Fresh("wm", SInt)
+		fx.ctx.Assert(Ge(w, st.wm))
+		st.wm = w
 		return
 	}
 	if ct.HasMod {
@@ -646,9 +667,27 @@ func (fr *Frame) opaqueCall(name string, fn *ssa.Function, args []Val, sig *type
 
 func (fr *Frame) havocKeys(name string, keys map[string]Sort, any bool, st *State) {
 	fx := fr.fx
+	if len(keys) > 0 {
+		filtered := map[string]Sort{}
+		for k, s := range keys {
+			if strings.HasPrefix(k, "Local.") && !fx.eng.ownsLocal(fr.fn, k) {
+				continue
+			}
+			filtered[k] = s
+		}
+		keys = filtered
+	}
 	if any {
 		fx.note("opaque call havocs the whole heap: " + name)
 		fx.newEpoch(st)
+		for _, k := range sortedKeys(keys) {
+			if strings.HasPrefix(k, "Local.") {
+				if _, ok := fx.keySort[k]; !ok {
+					fx.keySort[k] = keys[k]
+				}
+				st.heap[k] = fx.ctx.Fresh("Hcall."+k, fx.keySort[k])
+			}
+		}
 		return
 	}
 	if len(keys) > 0 {
@@ -819,6 +858,14 @@ func (fr *Frame) appendOp(c *ssa.CallCommon, args []Val, st *State, pos token.Po
 	if k == 0 {
 		return tv(s)
 	}
+	// frame: in-place append writes into the existing backing array
+	if fx.contract != nil && fx.contract.Flags["pure"] && !fx.contract.Flags["trusted"] {
+		label := "fresh-write"
+		if fr.site != "" {
+			label += "@" + fr.site
+		}
+		fx.oblige(st, "frame", label+":"+fx.eng.snippetNode(pos, fr.fn, nil), Implies(And(fits, Gt(n, Int(0))), Gt(SlBase(s), fx.entry.wm)), pos)
+	}
 	fresh := fx.alloc(st)
 	newCap := fx.ctx.Fresh("app.cap", SInt)
 	fx.assume(st, Ge(newCap, newLen))
@@ -875,14 +922,6 @@ func (fr *Frame) appendOp(c *ssa.CallCommon, args []Val, st *State, pos token.Po
 			fx.note("append of struct slices with symbolic count: element objects shared (imprecise)")
 		}
 	}
-	// frame: in-place append writes into the existing backing array
-	if fx.contract != nil && fx.contract.Flags["pure"] && !fx.contract.Flags["trusted"] {
-		label := "fresh-write"
-		if fr.site != "" {
-			label += "@" + fr.site
-		}
-		fx.oblige(st, "frame", label+":"+fx.eng.snippetNode(pos, fr.fn, nil), Implies(fits, Gt(SlBase(s), fx.entry.wm)), pos)
-	}
 	fx.frozenCheck(st, s, fits, n, pos, fr)
 	newArr := Ite(fits, Store(arr, SlBase(s), inplace), Store(arr, fresh, realloc))
 	fx.heapSet(st, key, newArr)
@@ -901,18 +940,60 @@ func (fx *FnExec) frozenCheck(st *State, s Term, fits Term, n Term, pos token.Po
 
 // ---- defers
 
-func (fr *Frame) runDefers(st *State) {
-	fx := fr.fx
+// blockReaches: is `to` reachable from `from` in the CFG?
+func blockReaches(from, to *ssa.BasicBlock) bool {
+	seen := map[int]bool{}
+	var stack []*ssa.BasicBlock
+	stack = append(stack, from)
+	for len(stack) > 0 {
+		b := stack[len(stack)-1]
+		stack = stack[:len(stack)-1]
+		if b == to {
+			return true
+		}
+		if seen[b.Index] {
+			continue
+		}
+		seen[b.Index] = true
+		stack = append(stack, b.Succs...)
+	}
+	return false
+}
+
+// runDefers executes, in reverse order, the deferred calls that were registered on the current path.
+func (fr *Frame) runDefers(st *State, at *ssa.BasicBlock) {
 	for i := len(fr.defers) - 1; i >= 0; i-- {
+		d := fr.defers[i]
+		if d.Block() != at && !blockReaches(d.Block(), at) {
+			continue // this defer statement cannot have executed on a path to this return
+		}
+		if d.Block() == at || d.Block().Dominates(at) {
+			fr.runDefer(i, st)
+			continue
+		}
+		// registered on some paths only: run it under its registration condition
+		with := st.clone()
+		fr.fx.extendPC(with, fr.deferPCs[i])
+		without := st.clone()
+		fr.fx.extendPC(without, Not(fr.deferPCs[i]))
+		fr.runDefer(i, with)
+		merged := fr.fx.mergeStates([]*State{with, without})
+		*st = *merged
+	}
+}
+
+func (fr *Frame) runDefer(i int, st *State) {
+	fx := fr.fx
+	{
 		d := fr.defers[i]
 		vs := fr.deferVals[i]
 		c := d.Common()
 		if c.IsInvoke() {
 			fr.opaqueCall("deferred invoke", nil, vs, c.Signature(), st, true)
-			continue
+			return
 		}
 		if _, ok := c.Value.(*ssa.Builtin); ok {
-			continue
+			return
 		}
 		callee := c.StaticCallee()
 		if callee == nil && vs[0].Fn != nil {
@@ -920,7 +1001,7 @@ func (fr *Frame) runDefers(st *State) {
 		}
 		if callee == nil {
 			fr.opaqueCall("deferred dynamic call", nil, vs[1:], c.Signature(), st, true)
-			continue
+			return
 		}
 		var binds []Val
 		if mc, ok := c.Value.(*ssa.MakeClosure); ok {
